@@ -5,7 +5,8 @@
 (* ones.  Alphabet (GT = good texts, GX = texts used for registration and    *)
 (* look-up only, e.g. an invalid and an unparseable one):                    *)
 (*   plain(t)  register(t)  lookup(h)  mismatch(t, other hash | garbage)     *)
-(*   wrong version with matching hash / hash only                            *)
+(*   wrong version with matching hash / hash only (any hash, registered or   *)
+(*   not: nothing may run, nothing may be stored)                            *)
 (*   malformed payload carrying the right hash / hash only                   *)
 (*   evict(h) when the model's registry holds h                              *)
 (* Symmetry: the texts of GT are interchangeable, so a history must mention  *)
@@ -22,7 +23,7 @@ GenReqs ==
   \cup {Rq("ok", "", h, 1, "") : h \in GT \cup GX \cup {Garbage}}
   \cup {Rq("ok", p[1], p[2], 1, "") : p \in {p \in GT \X (GT \cup {Garbage}) : p[2] # H(p[1])}}
   \cup {Rq("ok", t, H(t), 2, "") : t \in GT}
-  \cup {Rq("ok", "", H(t), 2, "") : t \in GT}
+  \cup {Rq("ok", "", h, 2, "") : h \in GT \cup {Garbage}}      \* hash only, unsupported version (registered or not)
   \cup {Rq("malformed", t, H(t), 0, "strversion") : t \in GT}
   \cup {Rq("malformed", "", H(t), 0, "noversion") : t \in GT}
 
